@@ -865,6 +865,24 @@ func c13WholeRuns(c *vh.Ctx) {
 		variant("meascsv1", "run:measurement-csv-vs-txt", "measurement file as CSV (new header) vs text", "VYCM", func(p *proj.Project) { p.UseMeasureCSV(1) })
 		variant("wx0", "run:weather-yearfiles-vs-csv", "weather as one file per year vs multi-year CSV", "VYCM", func(p *proj.Project) { p.UseWeatherLayout(0, false, 0, 2) })
 		variant("wx2", "run:weather-dayofyear-vs-csv", "weather in the day-of-year layout vs multi-year CSV", "VYCM", func(p *proj.Project) { p.UseWeatherLayout(2, false, 0, 2) })
+		// the mean temperature is not available on some interior days (none-value in the column): both layouts
+		// that carry the column replace it by the mean of the adjacent days
+		{
+			miss := func(p *proj.Project) []proj.Date { return p.MissingMeanTemperature(vh.NewRng(seed^0x7a76), 6) }
+			pc := mk()
+			days := miss(pc)
+			bc := runProject(c, root("tavgmiss_csv"), pc, nil)
+			py := mk()
+			miss(py)
+			py.UseWeatherLayout(0, false, 0, 2)
+			by := runProject(c, root("tavgmiss_year"), py, nil)
+			runs += 2
+			c.Eval()
+			c.Nontrivial(fmt.Sprintf("q%d/tavgmiss", k))
+			rp := replay("weather layouts, mean temperature missing")
+			rp["days_without_mean_temperature"] = days
+			compareRuns(c, "run:weather-yearfiles-vs-csv:mean-temperature-missing", "weather as one file per year vs multi-year CSV, mean temperature not available on some days", bc, by, "VYCM", rp)
+		}
 		// station height and wind height in the third header line: year files vs multi-year CSV
 		{
 			alt, wh := float64(50+int(seed%400)), []float64{2, 10, 1.2}[int(seed>>8)%3]
